@@ -2,9 +2,10 @@
 import sys, os, shutil, subprocess, tempfile
 rel, old, new, mods, fn = sys.argv[1:6]
 d = tempfile.mkdtemp(prefix="mut_")
+SRC = os.environ.get("URAL_REPO", "/repo")
 dst = os.path.join(d, rel)
-shutil.copytree("/repo/ural", os.path.join(d, "ural"), ignore=shutil.ignore_patterns("__pycache__"))
-s = open(os.path.join("/repo", rel)).read()
+shutil.copytree(SRC + "/ural", os.path.join(d, "ural"), ignore=shutil.ignore_patterns("__pycache__"))
+s = open(os.path.join(SRC, rel)).read()
 assert s.count(old) >= 1, "pattern not found"
 occ = int(os.environ.get("OCC", "1"))
 idx = -1
